@@ -289,6 +289,7 @@ let apply_oracle (name : string) (sc : scenario) (o : observation) : bool option
   | "c13k" -> c13k_oracle sc o
   | "c03" -> c03_oracle sc o
   | "c03m" -> c03_mloc_oracle sc o
+  | "c04" -> c04_oracle sc o
   | _ -> failwith ("unknown oracle " ^ name)
 
 let oracle name scen_file obs_file =
